@@ -1,5 +1,86 @@
 package main
 
+import (
+	"context"
+	"encoding/json"
+	"fmt"
+	"os"
+	"os/exec"
+	"path/filepath"
+	"regexp"
+	"strings"
+	"time"
+)
+
+// ReplayTemplate: which template replays which obligations of a pack.
+type ReplayTemplate struct {
+	Obligation string `json:"obligation"` // regexp on "fn :: name"
+	Template   string `json:"template"`   // file under /verif/replay/templates
+	Package    string `json:"package"`    // package directory relative to the repo root
+	Run        string `json:"run"`        // -run pattern
+}
+
+var reHole = regexp.MustCompile(`\{\{([A-Za-z_][A-Za-z0-9_]*)\}\}`)
+
+// runReplayTemplate instantiates the template with the model values, injects it into the package
+// with -overlay (nothing is written to the repo) and runs it. The defect is reproduced on the real
+// code iff the generated test FAILS.
 func runReplayTemplate(e *Engine, dir, base string, g *oblGroup, pack *Pack) (bool, string, string) {
-	return false, "replay templates not built yet", ""
+	var tm *ReplayTemplate
+	label := shortFn(g.Fn) + " :: " + g.Name
+	for i := range pack.Replays {
+		if matchRE(pack.Replays[i].Obligation, label) {
+			tm = &pack.Replays[i]
+		}
+	}
+	if tm == nil {
+		return false, "no replay template matches this obligation", ""
+	}
+	src, err := os.ReadFile(filepath.Join(e.verifDir, "replay", "templates", tm.Template))
+	if err != nil {
+		return false, "template missing: " + err.Error(), ""
+	}
+	missing := ""
+	text := reHole.ReplaceAllStringFunc(string(src), func(h string) string {
+		name := reHole.FindStringSubmatch(h)[1]
+		v, ok := g.Bad.Model[name]
+		if !ok {
+			missing = name
+			return "0"
+		}
+		v = strings.TrimSpace(v)
+		if strings.HasPrefix(v, "(- ") {
+			v = "-" + strings.TrimSuffix(strings.TrimPrefix(v, "(- "), ")")
+		}
+		return v
+	})
+	if missing != "" {
+		return false, "the model has no value for template parameter " + missing, ""
+	}
+	testFile := filepath.Join(dir, base+"_replay_test.go")
+	os.WriteFile(testFile, []byte(text), 0o644)
+	pkgDir := filepath.Join(e.repo, tm.Package)
+	ov := map[string]map[string]string{"Replace": {filepath.Join(pkgDir, "zz_gsv_replay_test.go"): testFile}}
+	ovb, _ := json.Marshal(ov)
+	ovFile := filepath.Join(dir, base+"_overlay.json")
+	os.WriteFile(ovFile, ovb, 0o644)
+	ctx, cancel := context.WithTimeout(context.Background(), 180*time.Second)
+	defer cancel()
+	run := tm.Run
+	if run == "" {
+		run = "TestGsvReplay"
+	}
+	cmd := exec.CommandContext(ctx, "go", "test", "-overlay", ovFile, "-vet=off", "-count=1", "-timeout", "60s", "-run", run, "./"+strings.TrimPrefix(tm.Package, "./"))
+	cmd.Dir = e.repo
+	out, err := cmd.CombinedOutput()
+	os.WriteFile(filepath.Join(dir, base+"_replay_output.txt"), out, 0o644)
+	s := string(out)
+	switch {
+	case strings.Contains(s, "--- FAIL") || (err != nil && strings.Contains(s, "FAIL") && !strings.Contains(s, "[build failed]") && !strings.Contains(s, "[setup failed]")):
+		return true, fmt.Sprintf("replayed on the real code: the generated test fails (model values %v); output in %s", g.Bad.Model, filepath.Join(dir, base+"_replay_output.txt")), testFile
+	case err == nil:
+		return false, "replayed on the real code: the generated test passes, so this model does not expose a failing input", testFile
+	default:
+		return false, "replay could not be run: " + head(s, 400), testFile
+	}
 }
